@@ -99,7 +99,7 @@ func (propC07) Gen(r *Rng, tier string) *World {
 	}
 	w.Cfg = g.C
 	w.Cfg.ViaDirect = r.P(0.2)
-	w.Cfg.DirStyle = r.Intn(4)
+	w.Cfg.DirStyle = r.Intn(6)
 	if r.P(0.35) {
 		w.Extra["engine"] = "inline"
 		genC07Tasks(r, g, w, 1)
